@@ -1,4 +1,6 @@
 import TinysetModel.Proofs.RemoveSrc
+import TinysetModel.Proofs.Repick
+import TinysetModel.Proofs.Plain2
 /-! The in-place paths of `insert` of the model ARE those of the current source: `Generated/Loops.lean` holds the `Dense`
 and `Heap` arms of `SetU64::insert` / `SetU32::insert` translated on every run up to the points where the set has to
 grow or change layout (those parts are replaced by an `.error`).  Here: whenever the translated arm returns — the bit
@@ -7,6 +9,7 @@ the type) — the model's `insert` returns the same answer, member count and sli
 table's placeholder handling stay hand-modelled and tied by runs.) -/
 namespace SC
 open RH (Tbl get put)
+open Plain2
 
 variable {D : Type}
 
@@ -188,12 +191,17 @@ theorem insert_heap_is_the_source_u32 (g : Rng D) (fuel e sz cap bits : Nat) (a 
   exact insert_heap_32_eq g _ e sz cap bits a he hb hn d h
 
 
-/-! ### the plain table (`Big`) arm, when the element is not the placeholder itself -/
+/-! ### the plain table (`Big`) arm -/
 
-theorem insert_big_64_eq (g : Rng D) (e sz cap bits : Nat) (a : Tbl) (d : D) {res : (Bool × Nat) × Array Nat}
+/-- (answer, member count, placeholder, slice) of the plain-table arm as a set -/
+def armOutB (cap : Nat) (d : D) : Except String ((Bool × Nat × Nat) × Array Nat) → Except Err ((Rp × Bool) × D)
+  | .ok ((b, sz, bits), a) => .ok ((.heap sz cap bits a, b), d)
+  | .error _ => .error .unreachable
+
+theorem insert_big_64_eq (g : Rng D) (e sz cap bits : Nat) (a : Tbl) (d : D) {res : (Bool × Nat × Nat) × Array Nat}
     (h : Gen.insert_big_64 e sz bits a = .ok res) :
-    insertPlain cfg64 g sz cap bits a e d = armOut cap bits d (.ok res) := by
-  simp only [Gen.insert_big_64, RH.p_lookfor_64_eq, RH.p_insert_64_eq, Gen.RI.idx, Gen.RI.set] at h
+    insertPlain cfg64 g sz cap bits a e d = armOutB cap d (.ok res) := by
+  simp only [Gen.insert_big_64, Gen.insert_big_64_join1, RH.p_lookfor_64_eq, RH.p_insert_64_eq, Gen.RI.set] at h
   by_cases hp : e = bits
   · simp only [hp, if_true] at h
     cases h
@@ -207,9 +215,9 @@ theorem insert_big_64_eq (g : Rng D) (e sz cap bits : Nat) (a : Tbl) (d : D) {re
       subst h
       rfl
     | empty idx =>
-      simp only [hl, RH.convLooked, RH.put.eq_1, Except.ok.injEq] at h
+      simp only [hl, RH.convLooked, Except.ok.injEq] at h
       subst h
-      simp [tablePlace, hl, armOut, RH.put.eq_1, pure, StateT.pure, Except.pure]
+      simp [tablePlace, hl, armOutB, RH.put.eq_1, pure, StateT.pure, Except.pure]
     | needInsert =>
       simp only [hl, RH.convLooked] at h
       have hroom : hasRoom cfg64 a = Gen.RI.anyzero a := rfl
@@ -222,14 +230,14 @@ theorem insert_big_64_eq (g : Rng D) (e sz cap bits : Nat) (a : Tbl) (d : D) {re
           rw [hpi] at h
           simp only [RH.convErr, Except.ok.injEq] at h
           subst h
-          simp [tablePlace, hl, hroom, hr, hpi, armOut, RH.put.eq_1, pure, StateT.pure, Except.pure]
-      · simp only [hr, Bool.false_eq_true, if_false] at h
+          simp [tablePlace, hl, hroom, hr, hpi, armOutB, RH.put.eq_1, pure, StateT.pure, Except.pure]
+      · simp only [hr, Bool.false_eq_true, if_false, Gen.insert_big_64_join2] at h
         cases h
 
 theorem insert_big_32_eq (g : Rng D) (e sz cap bits : Nat) (a : Tbl) (hn : a.size < 2 ^ 32) (d : D)
-    {res : (Bool × Nat) × Array Nat} (h : Gen.insert_big_32 e sz bits a = .ok res) :
-    insertPlain cfg32 g sz cap bits a e d = armOut cap bits d (.ok res) := by
-  simp only [Gen.insert_big_32, RH.p_lookfor_32_eq _ a _ hn, RH.p_insert_32_eq _ a _ hn, Gen.RI.idx, Gen.RI.set] at h
+    {res : (Bool × Nat × Nat) × Array Nat} (h : Gen.insert_big_32 e sz bits a = .ok res) :
+    insertPlain cfg32 g sz cap bits a e d = armOutB cap d (.ok res) := by
+  simp only [Gen.insert_big_32, Gen.insert_big_32_join1, RH.p_lookfor_32_eq _ a _ hn, RH.p_insert_32_eq _ a _ hn, Gen.RI.set] at h
   by_cases hp : e = bits
   · simp only [hp, if_true] at h
     cases h
@@ -243,9 +251,9 @@ theorem insert_big_32_eq (g : Rng D) (e sz cap bits : Nat) (a : Tbl) (hn : a.siz
       subst h
       rfl
     | empty idx =>
-      simp only [hl, RH.convLooked, RH.put.eq_1, Except.ok.injEq] at h
+      simp only [hl, RH.convLooked, Except.ok.injEq] at h
       subst h
-      simp [tablePlace, hl, armOut, RH.put.eq_1, pure, StateT.pure, Except.pure]
+      simp [tablePlace, hl, armOutB, RH.put.eq_1, pure, StateT.pure, Except.pure]
     | needInsert =>
       simp only [hl, RH.convLooked] at h
       have hroom : hasRoom cfg32 a = Gen.RI.room16 a := rfl
@@ -258,29 +266,237 @@ theorem insert_big_32_eq (g : Rng D) (e sz cap bits : Nat) (a : Tbl) (hn : a.siz
           rw [hpi] at h
           simp only [RH.convErr, Except.ok.injEq] at h
           subst h
-          simp [tablePlace, hl, hroom, hr, hpi, armOut, RH.put.eq_1, pure, StateT.pure, Except.pure]
-      · simp only [hr, Bool.false_eq_true, if_false] at h
+          simp [tablePlace, hl, hroom, hr, hpi, armOutB, RH.put.eq_1, pure, StateT.pure, Except.pure]
+      · simp only [hr, Bool.false_eq_true, if_false, Gen.insert_big_32_join2] at h
         cases h
 
 /-- `SetU64::insert` on a plain table, for an element other than the placeholder: if the translated arm returns,
 `insert` of the model returns the same -/
 theorem insert_big_is_the_source_u64 (g : Rng D) (fuel e sz cap bits : Nat) (a : Tbl) (hb : bits = 0 ∨ bits > 64) (d : D)
-    {res : (Bool × Nat) × Array Nat} (h : Gen.insert_big_64 e sz bits a = .ok res) :
-    insert cfg64 g (fuel + 1) (.heap sz cap bits a) e d = armOut cap bits d (.ok res) := by
+    {res : (Bool × Nat × Nat) × Array Nat} (h : Gen.insert_big_64 e sz bits a = .ok res) :
+    insert cfg64 g (fuel + 1) (.heap sz cap bits a) e d = armOutB cap d (.ok res) := by
   have h1 : isDense cfg64 bits = false := by simp [isDense, cfg64]; omega
   have h2 : isPlain cfg64 bits = true := by simp [isPlain, cfg64]; omega
   simp only [insert, insertStep, h1, h2, Bool.false_eq_true, if_false, if_true]
   exact insert_big_64_eq g e sz cap bits a d h
 theorem insert_big_is_the_source_u32 (g : Rng D) (fuel e sz cap bits : Nat) (a : Tbl) (hb : bits = 0 ∨ bits > 32)
-    (hn : a.size < 2 ^ 32) (d : D) {res : (Bool × Nat) × Array Nat} (h : Gen.insert_big_32 e sz bits a = .ok res) :
-    insert cfg32 g (fuel + 1) (.heap sz cap bits a) e d = armOut cap bits d (.ok res) := by
+    (hn : a.size < 2 ^ 32) (d : D) {res : (Bool × Nat × Nat) × Array Nat} (h : Gen.insert_big_32 e sz bits a = .ok res) :
+    insert cfg32 g (fuel + 1) (.heap sz cap bits a) e d = armOutB cap d (.ok res) := by
   have h1 : isDense cfg32 bits = false := by simp [isDense, cfg32]; omega
   have h2 : isPlain cfg32 bits = true := by simp [isPlain, cfg32]; omega
   simp only [insert, insertStep, h1, h2, Bool.false_eq_true, if_false, if_true]
   exact insert_big_32_eq g e sz cap bits a hn d h
+
+
+/-! ### the plain table arm when the element IS the placeholder: re-selection, then the in-place paths -/
+
+theorem cascade_size (off n stolen : Nat) : ∀ (fuel j : Nat) (a : Tbl) (dd pd : Nat) (a' : Tbl),
+    RH.cascade off n stolen fuel j a dd pd = .ok a' → a'.size = a.size := by
+  intro fuel
+  induction fuel with
+  | zero => intro j a dd pd a' h; cases h
+  | succ f ih =>
+    intro j a dd pd a' h
+    simp only [RH.cascade] at h
+    split at h
+    · cases h; simp [RH.put]
+    · split at h
+      · have := ih _ _ _ _ _ h; simpa [RH.put] using this
+      · exact ih _ _ _ _ _ h
+
+theorem pinsertAux_size (k off n : Nat) : ∀ (fuel p : Nat) (a : Tbl) (idx : Nat) (a' : Tbl),
+    RH.pinsertAux k off n fuel p a = .ok (idx, a') → a'.size = a.size := by
+  intro fuel
+  induction fuel with
+  | zero => intro p a idx a' h; cases h
+  | succ f ih =>
+    intro p a idx a' h
+    simp only [RH.pinsertAux] at h
+    split at h
+    · cases h; rfl
+    · split at h
+      · cases hc : RH.cascade off n (RH.slot n (k % n) p) (n - 1) 1 (RH.put a (RH.slot n (k % n) p) 0)
+            (RH.get a (RH.slot n (k % n) p)) (RH.pov (RH.get a (RH.slot n (k % n) p) >>> off) (RH.slot n (k % n) p) n) with
+        | error x => rw [hc] at h; cases h
+        | ok a2 =>
+          rw [hc] at h
+          simp only [Except.map, Except.ok.injEq, Prod.mk.injEq] at h
+          obtain ⟨_, rfl⟩ := h
+          have := cascade_size _ _ _ _ _ _ _ _ _ hc
+          simpa [RH.put] using this
+      · exact ih _ _ _ _ h
+
+theorem pinsert_size {k : Nat} {a : Tbl} {off idx : Nat} {a' : Tbl} (h : RH.pinsert k a off = .ok (idx, a')) :
+    a'.size = a.size := pinsertAux_size k off a.size a.size 0 a idx a' h
+
+theorem scan_while_64 (a1 : Tbl) (e : Nat) : ∀ (fuel i j : Nat), scanUp cfg64 a1.toList e fuel i = some j →
+    Gen.RI.whileN fuel (fun i => decide (((i ≤ 64) ∨ (i = e)) ∨ (Gen.RI.hasWord a1 i))) (fun i => (i + 1) % 18446744073709551616) i = j := by
+  intro fuel
+  induction fuel with
+  | zero => intro i j h; cases h
+  | succ f ih =>
+    intro i j h
+    simp only [scanUp, show cfg64.W = 64 from rfl] at h
+    simp only [Gen.RI.whileN]
+    by_cases hc : i ≤ 64 ∨ i = e ∨ a1.toList.contains i = true
+    · rw [if_pos hc] at h
+      have hc' : decide ((i ≤ 64 ∨ i = e) ∨ Gen.RI.hasWord a1 i = true) = true := by
+        rw [decide_eq_true_eq, or_assoc]; exact hc
+      rw [if_pos hc']
+      exact ih _ _ h
+    · rw [if_neg hc] at h
+      have hc' : ¬ decide ((i ≤ 64 ∨ i = e) ∨ Gen.RI.hasWord a1 i = true) = true := by
+        rw [decide_eq_true_eq, or_assoc]; exact hc
+      rw [if_neg hc']
+      exact (Option.some.inj h)
+
+theorem scan_while_32 (a1 : Tbl) (e : Nat) : ∀ (fuel i j : Nat), scanUp cfg32 a1.toList e fuel i = some j →
+    Gen.RI.whileN fuel (fun i => decide (((i ≤ 32) ∨ (i = e)) ∨ (Gen.RI.hasWord a1 i))) (fun i => (i + 1) % 4294967296) i = j := by
+  intro fuel
+  induction fuel with
+  | zero => intro i j h; cases h
+  | succ f ih =>
+    intro i j h
+    simp only [scanUp, show cfg32.W = 32 from rfl] at h
+    simp only [Gen.RI.whileN]
+    by_cases hc : i ≤ 32 ∨ i = e ∨ a1.toList.contains i = true
+    · rw [if_pos hc] at h
+      have hc' : decide ((i ≤ 32 ∨ i = e) ∨ Gen.RI.hasWord a1 i = true) = true := by
+        rw [decide_eq_true_eq, or_assoc]; exact hc
+      rw [if_pos hc']
+      exact ih _ _ h
+    · rw [if_neg hc] at h
+      have hc' : ¬ decide ((i ≤ 32 ∨ i = e) ∨ Gen.RI.hasWord a1 i = true) = true := by
+        rw [decide_eq_true_eq, or_assoc]; exact hc
+      rw [if_neg hc']
+      exact (Option.some.inj h)
+
+/-- model side: after a successful re-selection `insertPlain` continues exactly as `insertPlain` on the new slice and
+    placeholder (the element is no longer the placeholder) -/
+theorem insertPlain_repick (c : Cfg) (g : Rng D) (sz cap bits : Nat) (a : Tbl) (d : D) {hz : Bool} {a1 a2 : Tbl} {i : Nat}
+    (hprem : RH.premove bits a 0 = (hz, a1))
+    (hscan : scanUp c a1.toList bits (a1.size + c.W + 3) (modW c (g.draw d cap bits).1) = some i)
+    (hplace : if hz = true then placeRaw (D := D) i a1 (g.draw d cap bits).2 = .ok (a2, (g.draw d cap bits).2) else a2 = a1)
+    (hne : bits ≠ i) :
+    insertPlain c g sz cap bits a bits d = insertPlain c g sz cap i a2 bits (g.draw d cap bits).2 := by
+  unfold insertPlain
+  simp only [if_true, if_neg hne, hprem, bind, StateT.bind, Except.bind, drawM_run, hscan, pure, StateT.pure, Except.pure]
+  cases hz
+  · simp only [Bool.false_eq_true, if_false] at hplace ⊢
+    subst hplace
+    rfl
+  · simp only [if_true] at hplace ⊢
+    simp only [StateT.bind, Except.bind, hplace, pure, StateT.pure, Except.pure]
+    rfl
+
+theorem bigfull_join_64 (e sz bits : Nat) (a : Tbl) (r : Nat) (hne : e ≠ bits) :
+    Gen.insert_bigfull_64_join1 e sz bits a r = Gen.insert_big_64 e sz bits a := by
+  unfold Gen.insert_big_64 Gen.insert_bigfull_64_join1 Gen.insert_big_64_join1 Gen.insert_bigfull_64_join2 Gen.insert_big_64_join2
+  rw [if_neg hne]
+theorem bigfull_join_32 (e sz bits : Nat) (a : Tbl) (r : Nat) (hne : e ≠ bits) :
+    Gen.insert_bigfull_32_join1 e sz bits a r = Gen.insert_big_32 e sz bits a := by
+  unfold Gen.insert_big_32 Gen.insert_bigfull_32_join1 Gen.insert_big_32_join1 Gen.insert_bigfull_32_join2 Gen.insert_big_32_join2
+  rw [if_neg hne]
+
+/-- `SetU64::insert` of the placeholder value itself: remove the stand-in for 0 if present, one draw, scan upward to the
+first usable value (not ≤ 64, not the old placeholder, not a word of the table), re-insert the stand-in, then the
+in-place paths — as translated; whenever it returns, the model's `insertPlain` returns the same set, answer and
+generator state (tables of fewer than 2^64 − 67 buckets) -/
+theorem insert_bigfull_64_eq (g : Rng D) (sz cap bits : Nat) (a : Tbl) (d : D) (hsmall : a.size + 64 + 3 ≤ 2 ^ 64)
+    {res : (Bool × Nat × Nat) × Array Nat}
+    (h : Gen.insert_bigfull_64 bits sz bits a (modW cfg64 (g.draw d cap bits).1) = .ok res) :
+    insertPlain cfg64 g sz cap bits a bits d = armOutB cap (g.draw d cap bits).2 (.ok res) := by
+  simp only [Gen.insert_bigfull_64, if_true, RH.p_remove_64_eq, RH.p_insert_64_eq, Gen.RI.set] at h
+  cases hpm : RH.premove bits a 0 with
+  | mk hz a1 =>
+    have hsz : a1.size = a.size := by have := premove_size bits a 0; rw [hpm] at this; exact this
+    obtain ⟨i, hs, hgt, hne, _⟩ := scanUp_terminates cfg64 a1.toList bits (modW cfg64 (g.draw d cap bits).1)
+      (modW_lt _) (by simp only [Array.length_toList, hsz]; exact hsmall)
+    simp only [Array.length_toList, show cfg64.W = 64 from rfl] at hs
+    have hw := scan_while_64 a1 bits _ _ _ hs
+    rw [hpm] at h
+    simp only [hw] at h
+    cases hz
+    · simp only [Bool.false_eq_true, if_false] at h
+      rw [bigfull_join_64 bits sz i a1 _ (Ne.symm hne)] at h
+      rw [insertPlain_repick cfg64 g sz cap bits a d (a2 := a1) hpm hs (by simp) (Ne.symm hne)]
+      exact insert_big_64_eq g bits sz cap i a1 _ h
+    · simp only [if_true] at h
+      cases hpi : RH.pinsert i a1 0 with
+      | error x => rw [hpi] at h; cases x <;> cases h
+      | ok q =>
+        obtain ⟨idx0, a1'⟩ := q
+        rw [hpi] at h
+        simp only [RH.convErr] at h
+        rw [bigfull_join_64 bits sz i _ _ (Ne.symm hne)] at h
+        rw [insertPlain_repick cfg64 g sz cap bits a d (a2 := RH.put a1' idx0 i) hpm hs
+          (by simp [placeRaw, hpi, pure, StateT.pure, Except.pure]) (Ne.symm hne)]
+        exact insert_big_64_eq g bits sz cap i _ _ h
+
+theorem insert_bigfull_32_eq (g : Rng D) (sz cap bits : Nat) (a : Tbl) (d : D) (hsmall : a.size + 32 + 3 ≤ 2 ^ 31)
+    {res : (Bool × Nat × Nat) × Array Nat}
+    (h : Gen.insert_bigfull_32 bits sz bits a (modW cfg32 (g.draw d cap bits).1) = .ok res) :
+    insertPlain cfg32 g sz cap bits a bits d = armOutB cap (g.draw d cap bits).2 (.ok res) := by
+  simp only [Gen.insert_bigfull_32, if_true, RH.p_remove_32_eq _ a _ (by omega), Gen.RI.set] at h
+  cases hpm : RH.premove bits a 0 with
+  | mk hz a1 =>
+    have hsz : a1.size = a.size := by have := premove_size bits a 0; rw [hpm] at this; exact this
+    obtain ⟨i, hs, hgt, hne, _⟩ := scanUp_terminates cfg32 a1.toList bits (modW cfg32 (g.draw d cap bits).1)
+      (modW_lt _) (by simp only [Array.length_toList, hsz, show cfg32.W = 32 from rfl]; omega)
+    simp only [Array.length_toList, show cfg32.W = 32 from rfl] at hs
+    have hw := scan_while_32 a1 bits _ _ _ hs
+    rw [hpm] at h
+    simp only [hw] at h
+    cases hz
+    · simp only [Bool.false_eq_true, if_false] at h
+      rw [bigfull_join_32 bits sz i a1 _ (Ne.symm hne)] at h
+      rw [insertPlain_repick cfg32 g sz cap bits a d (a2 := a1) hpm hs (by simp) (Ne.symm hne)]
+      exact insert_big_32_eq g bits sz cap i a1 (by omega) _ h
+    · simp only [if_true] at h
+      rw [RH.p_insert_32_eq _ a1 _ (by omega)] at h
+      cases hpi : RH.pinsert i a1 0 with
+      | error x => rw [hpi] at h; cases x <;> cases h
+      | ok q =>
+        obtain ⟨idx0, a1'⟩ := q
+        rw [hpi] at h
+        simp only [RH.convErr] at h
+        rw [bigfull_join_32 bits sz i _ _ (Ne.symm hne)] at h
+        rw [insertPlain_repick cfg32 g sz cap bits a d (a2 := RH.put a1' idx0 i) hpm hs
+          (by simp [placeRaw, hpi, pure, StateT.pure, Except.pure]) (Ne.symm hne)]
+        have hsz2 : (RH.put a1' idx0 i).size < 2 ^ 32 := by
+          have := pinsert_size hpi
+          simp only [RH.put, Array.size_setIfInBounds]
+          omega
+        exact insert_big_32_eq g bits sz cap i _ hsz2 _ h
+
+/-- `SetU64::insert` of the placeholder value itself on a plain table: whenever the translated arm (re-selection
+included, the draw a parameter) returns, the model's `insert` returns the same set, answer and generator state -/
+theorem insert_placeholder_is_the_source_u64 (g : Rng D) (fuel sz cap bits : Nat) (a : Tbl)
+    (hb : bits = 0 ∨ bits > 64) (d : D) (hsmall : a.size + 64 + 3 ≤ 2 ^ 64) {res : (Bool × Nat × Nat) × Array Nat}
+    (h : Gen.insert_bigfull_64 bits sz bits a (modW cfg64 (g.draw d cap bits).1) = .ok res) :
+    insert cfg64 g (fuel + 1) (.heap sz cap bits a) bits d = armOutB cap (g.draw d cap bits).2 (.ok res) := by
+  have h1 : isDense cfg64 bits = false := by simp [isDense, cfg64]; omega
+  have h2 : isPlain cfg64 bits = true := by simp [isPlain, cfg64]; omega
+  simp only [insert, insertStep, h1, h2, Bool.false_eq_true, if_false, if_true]
+  exact insert_bigfull_64_eq g sz cap bits a d hsmall h
+
+/-- `SetU32::insert` of the placeholder value itself on a plain table: whenever the translated arm (re-selection
+included, the draw a parameter) returns, the model's `insert` returns the same set, answer and generator state -/
+theorem insert_placeholder_is_the_source_u32 (g : Rng D) (fuel sz cap bits : Nat) (a : Tbl)
+    (hb : bits = 0 ∨ bits > 32) (d : D) (hsmall : a.size + 32 + 3 ≤ 2 ^ 31) {res : (Bool × Nat × Nat) × Array Nat}
+    (h : Gen.insert_bigfull_32 bits sz bits a (modW cfg32 (g.draw d cap bits).1) = .ok res) :
+    insert cfg32 g (fuel + 1) (.heap sz cap bits a) bits d = armOutB cap (g.draw d cap bits).2 (.ok res) := by
+  have h1 : isDense cfg32 bits = false := by simp [isDense, cfg32]; omega
+  have h2 : isPlain cfg32 bits = true := by simp [isPlain, cfg32]; omega
+  simp only [insert, insertStep, h1, h2, Bool.false_eq_true, if_false, if_true]
+  exact insert_bigfull_32_eq g sz cap bits a d hsmall h
 
 end SC
 
 #print axioms SC.insert_heap_64_eq
 #print axioms SC.insert_heap_is_the_source_u32
 #print axioms SC.insert_big_is_the_source_u32
+#print axioms SC.insert_bigfull_64_eq
+#print axioms SC.insert_bigfull_32_eq
+#print axioms SC.insert_placeholder_is_the_source_u64
+#print axioms SC.insert_placeholder_is_the_source_u32
